@@ -416,7 +416,8 @@ def rule_carrier(ck, X):
             ck.violation("R5", f"carrier:{label}", "-", f"simple type with {label} base: carrier member not found")
             continue
         site = m_sel[0].site
-        if len(a_txt) == 1 and len(m_ty) == 1 and attr in a_txt[0] and m_ty[0] == ty:
+        # (a string base may be spelled `String`: that is what its Display writes, see the builtin table of C02.R1)
+        if len(a_txt) == 1 and len(m_ty) == 1 and attr in a_txt[0] and (m_ty[0] == ty or (kind == "String" and m_ty[0] == "String")):
             ck.ok("R5", f"carrier:{label}", site, f"{label} base: `{a_txt[0]}` on `value: {m_ty[0]}`")
         else:
             ck.violation("R5", f"carrier:{label}", site, f"{label} base: {a_txt} on `value: {m_ty}`; expected `#[yaserde({attr})]` on `value: {ty}`")
